@@ -41,8 +41,9 @@ def _rename_term(t, loff, boff):
         t["targets"] = [[v, bb + boff] for v, bb in t["targets"]]
 
 
-def recursive_fns(crate):
-    """paths of functions of the crate that lie on a call cycle (resolved callees, closures attributed to their parent)"""
+def recursive_fns(crate, without=None):
+    """paths of functions of the crate that lie on a call cycle (resolved callees, closures attributed to their parent); with
+    `without`, edges into that function are ignored"""
     graph = {}
     for b in crate.bodies:
         if not b.get("mir"):
@@ -53,7 +54,7 @@ def recursive_fns(crate):
         B = M.Body(b)
         for _, t in B.calls():
             for p in {M.Body.callee(t), M.Body.callee_decl(t)}:
-                if p and crate.body(p) is not None:
+                if p and crate.body(p) is not None and p != without:
                     graph.setdefault(owner, set()).add(p)
     rec = set()
     for start in graph:
@@ -71,10 +72,13 @@ def recursive_fns(crate):
 
 
 class Inliner:
-    def __init__(self, crate, stop=lambda path: False, max_blocks=6000, max_depth=8):
+    def __init__(self, crate, stop=lambda path: False, max_blocks=6000, max_depth=8, head=None):
         self.crate = crate
-        self.stop = stop
-        self.rec = recursive_fns(crate)
+        self.head = head
+        self.stop = (lambda p: p == head or stop(p)) if head else stop
+        # with a head, calls to the head stay calls; every cycle through the head is thereby cut, so the other members of its
+        # recursion can be inlined (cycles that avoid the head stay non-inlinable)
+        self.rec = recursive_fns(crate, without=head)
         self.max_blocks = max_blocks
         self.max_depth = max_depth
         self.inlined = []  # (callee path, call site span) in the order of inlining
@@ -119,6 +123,8 @@ class Inliner:
                 loc["i"] += loff
                 loc["from"] = p
                 loc["user"] = False
+                if loc["i"] == loff:
+                    loc["inl_ret"] = True   # the callee's return place
                 m["locals"].append(loc)
             for v in cm.get("vars", []):
                 v = copy.deepcopy(v)
@@ -154,3 +160,39 @@ def inlined_body(crate, path, stop=lambda p: False, **kw):
         return None
     inl = Inliner(crate, stop, **kw)
     return M.Body(inl.body(fact))
+
+
+def collapsed_body(crate, head, stop=lambda p: False, **kw):
+    """Body of `head` with everything crate-local inlined except calls to `head` itself: a recursion through helper functions
+    becomes direct recursion, so that 'what happens before the recursive call' is a statement about one CFG."""
+    fact = crate.body(head)
+    if fact is None or not fact.get("mir"):
+        return None
+    return M.Body(Inliner(crate, stop, head=head, **kw).body(fact))
+
+
+def closure_sites(B):
+    """[(bb, closure path)] for every closure literal created in the (reachable part of the) body"""
+    out = []
+    for i in sorted(B.reach):
+        for s in B.blocks[i]["stmts"]:
+            if s["k"] == "assign" and s["rv"]["k"] == "aggregate" and s["rv"].get("closure"):
+                out.append((i, s["rv"]["closure"]))
+    return out
+
+
+def calls_through_closures(crate, B, pred, head=None, _depth=0):
+    """Calls satisfying pred(term) in B and in the closures created in B (transitively). Yields (site_bb in B, term, where) with
+    where = None for a call in B itself, or the closure's (collapsed) Body for a call inside a closure created at site_bb."""
+    for bb, t in B.calls():
+        if pred(t):
+            yield bb, t, None
+    if _depth > 3:
+        return
+    for bb, cpath in closure_sites(B):
+        fact = crate.body(cpath)
+        if fact is None or not fact.get("mir"):
+            continue
+        CB = M.Body(Inliner(crate, head=head).body(fact))
+        for _, t, _w in calls_through_closures(crate, CB, pred, head, _depth + 1):
+            yield bb, t, CB
